@@ -83,8 +83,10 @@ def _has_body(f):
 
 
 def _strip_const(q):
-    q = re.sub(r'^\s*const\s+', '', q.strip())
-    q = re.sub(r'\s+const\s*$', '', q)
+    """drop the top-level const only (a leading const of a pointer/reference type qualifies the pointee)"""
+    q = q.strip()
+    if '*' not in q and '&' not in q: q = re.sub(r'^const\s+', '', q)
+    q = re.sub(r'\s*\bconst\s*$', '', q)
     return re.sub(r'\s+', ' ', q).strip()
 
 
@@ -152,7 +154,6 @@ def analyse(u, tu_rel, cname):
     for i, p in enumerate(cxx2c.params_of(f)):
         k, t = _classify(p['type'])
         if k is None: raise Ineligible('parameter %s of type %s' % (p.get('name') or i, t))
-        if k == 'sstr' and static: raise Ineligible('parameter %s of type const SimpleString & in a static function' % (p.get('name') or i))
         isbool = _strip_const(p['type'].get('desugaredQualType', p['type']['qualType'])) == 'bool'
         c.params.append(dict(kind=k, ctype=t, name=p.get('name') or '_p%d' % i, isbool=isbool,
                              isf32=_strip_const(p['type'].get('desugaredQualType', p['type']['qualType'])) == 'float'))
@@ -790,8 +791,9 @@ def _build(session, u, tu_rel, cands, closures, tag, defines, corrupt, libs):
 
 def _execute(exe, seed, n_random, cap, timeout):
     env = dict(os.environ)
-    env['ASAN_OPTIONS'] = 'detect_leaks=0:abort_on_error=0:allocator_may_return_null=1'
-    env['UBSAN_OPTIONS'] = 'print_stacktrace=0'
+    # symbolize=0: a sanitizer report that has to be symbolized costs 0.5 s, one that is not costs 5 ms
+    env['ASAN_OPTIONS'] = 'detect_leaks=0:abort_on_error=0:allocator_may_return_null=1:symbolize=0'
+    env['UBSAN_OPTIONS'] = 'print_stacktrace=0:symbolize=0'
     rc, so, se = _run(['timeout', str(timeout), exe, str(seed), str(n_random), str(cap)], timeout=timeout + 30, env=env)
     recs = []
     for l in so.splitlines():
